@@ -26,6 +26,18 @@ def sink_kind(w, b, t):
         return "partial"
     if np == "std::io::Write::write_all" and re.search(r"(tempfile::NamedTempFile)", c.self_ty or ""):
         return "whole"
+    # an all-or-error loop (`write_all`, `write_fmt` ...) over a crate type whose own `write` writes the staging file — a tee,
+    # a counting wrapper — is as little resumable as `write_all` on the staging file itself: when it fails part-way the bytes
+    # already accepted (and digested) stay, yet the caller is told that nothing was taken
+    m_ = re.match(r"^std::io::Write::(write_all|write_fmt|write_all_vectored)$", np)
+    if m_ and c.self_ty:
+        head = strip_refs(c.self_ty).split("<")[0]
+        for lf2 in w.prog.fns.values():
+            o2 = lf2.outer
+            if o2.name == "write" and o2.impl_trait and o2.impl_trait.endswith("io::Write") and \
+                    strip_refs(o2.impl_self or "").split("<")[0] == head and lf2.body is not b:
+                if any(sink_kind(w, bb, t2) in ("partial", "whole", "whole-local") for bb in w.prog.fn_bodies(lf2) for _, t2 in bb.calls() if t2 is not t):
+                    return "whole"
     g = w.prog.callee_fn(t)
     if g is not None and any(e.kind == "WriteData" and e.flags.get("on") == "MmapMut" for e in w.own_effects(g)):
         return "whole-local"
@@ -151,7 +163,13 @@ def check_config(cfg, w, rep):
                     rep.violation("a-digest:%s" % key, "`%s`: %s (digest input %s)" % (short(lf.path), why, term_str(dterm)[:70]),
                                   loc=span_str(it.span), config=cfg, rule="a-digest-sink")
             for sblk, st, kind in sinks:
-                if sblk.i not in matched_sinks:
+                if sblk.i not in matched_sinks and kind == "whole":
+                    rep.violation("a-sink:%s" % key,
+                                  "`%s` stages bytes with the all-or-error `%s`, which is not resumable: when it fails part-way, the bytes already "
+                                  "accepted stay in the staging file (and in the digest) although the caller is told that nothing was taken — a "
+                                  "caller that retries stores prefix + chunk under a matching address" % (
+                                      short(lf.path), norm_callee(st.callee.path)), loc=span_str(st.span), config=cfg, rule="a-digest-sink")
+                elif sblk.i not in matched_sinks:
                     rep.violation("a-sink:%s" % key, "`%s` writes bytes to the content temp file (%s) that are not fed to the digest" % (
                         short(lf.path), norm_callee(st.callee.path)), loc=span_str(st.span), config=cfg, rule="a-digest-sink")
     rep.floor("digest_sink_pairs", n_pairs, (2 if has_mmap else 1) * (2 if is_async else 1), cfg)
